@@ -8,14 +8,23 @@ package event
 @*/
 /*@ immutable types/event.subscription.parent types/event.subscription.outch types/event.subscription.cache
   types/event.cache.parent types/event.controller.parent types/event.controller.cache types/event.filterController.filterParent
-  types/event.filterSubscription.filterParent
+  types/event.filterSubscription.filterParent types/event.filterController.controller
 @*/
 /*@ nonblocking-send types/event.subscription.outch
 @*/
 
 /*@ theory eventtyped
 ;; theory lists wiring
-;; uses types/event.event
+;; uses types/event.event types/event.controller
+(declare-fun |F!types/event.filterController!controller| (V) |S!types/event.controller|)
+(assert (forall ((c V)) (! (=> (= (dyntype c) |ty!*types/event.filterController|)
+                               (not (= (|types/event.controller.parent| (|F!types/event.filterController!controller| c)) vnil)))
+                          :pattern ((|F!types/event.filterController!controller| c)))))
+(declare-fun |F!types/event.controller!parent| (V) V)
+; object invariant of the typed controllers (they are only built by newController / newFilterController,
+; whose precondition is a non-nil parent; the field is immutable)
+(assert (forall ((c V)) (! (=> (or (= (dyntype c) |ty!*types/event.controller|) (= (dyntype c) |ty!*types/event.filterController|))
+                               (not (= (|F!types/event.controller!parent| c) vnil))) :pattern ((|F!types/event.controller!parent| c)))))
 (define-fun isT ((o V)) Bool (and (not (= o vnil)) (= (dyntype o) |ty!*core/v1.Event|)))
 (declare-fun tevt-type (V) Str)
 (declare-fun tevt-res (V) V)
@@ -239,6 +248,23 @@ package event
   at call(Refilter) assert [refilters-the-untyped-subscription-with-the-given-filter] (and (= $recv {s.filterParent}) (= $0 {f}))
 @*/
 
+/*@ func types/event.NewMonitor
+  props C20 C16
+  theory eventtyped
+  allow panic
+  note NewMonitor panics for a Publisher that is not one of this package's controllers (documented in the code)
+  requires (and (not (= {publisher} vnil)) (not (= {handler} vnil)))
+  at call(OnInitialize) assert [initialize-adapter] (= (closureOf $0) "types/event.NewMonitor$1")
+  at call(OnCreate) assert [create-adapter-calls-oncreate] (= (closureOf $0) "types/event.NewMonitor$2")
+  at call(OnUpdate) assert [update-adapter-calls-onupdate] (= (closureOf $0) "types/event.NewMonitor$3")
+  at call(OnDelete) assert [delete-adapter-calls-ondelete] (= (closureOf $0) "types/event.NewMonitor$4")
+  ensures (=> (= result1 vnil) (not (= result0 vnil)))
+@*/
+/*@ func types/event.BuildHandler
+  props C20
+  fresh result
+  ensures (not (= result vnil))
+@*/
 /*@ func types/event.NewMonitor$1
   props C20 C16
   theory eventtyped
